@@ -89,7 +89,7 @@ COLNAME = {'string': 'StringCol', 'unicode': 'UnicodeCol', 'int': 'IntCol', 'tin
            'pickle': 'PickleCol', 'uuid': 'UuidCol', 'json': 'JSONCol', 'fkInt': 'ForeignKey',
            'fkStr': 'ForeignKey', 'fkIntS': 'ForeignKey'}
 VARIANTS = ['eager', 'lazy', 'nocachevalues']
-PATHS = ['create', 'setattr', 'set', 'lazy', 'expire-lazy', 'expire-eager', 'expire-sync-assign', 'lazy-failflush']
+PATHS = ['create', 'setattr', 'set', 'lazy', 'expire-lazy', 'expire-eager', 'expire-sync-assign', 'lazy-failflush', 'loaded']
 FK_TYPES = ('fkInt', 'fkStr', 'fkIntS')
 
 
@@ -684,6 +684,21 @@ def wipe(cls):
 _rowid = [0]
 
 
+def bystander_value(T):
+    """a plain domain value held by the OTHER row of the same table in the 'loaded' path"""
+    return {'string': 'by', 'unicode': 'by', 'int': 41, 'tinyInt': 41, 'smallInt': 41, 'mediumInt': 41, 'bigInt': 41,
+            'bool': True, 'float': 1.5, 'dateTime': D.datetime(2001, 2, 3, 4, 5, 6, 7), 'timestamp': D.datetime(2001, 2, 3, 4, 5, 6, 7),
+            'date': D.date(2001, 2, 3), 'time': D.time(4, 5, 6, 7), 'decimal': Dec('1.5'), 'currency': Dec('1.5'),
+            'decimalString': Dec('1.500'), 'enum': 'a', 'blob': b'by', 'pickle': {'k': 1}, 'uuid': uuid.UUID(int=9),
+            'json': {'k': [1]}, 'fkInt': 2, 'fkStr': 'x', 'fkIntS': 2}[T]
+
+
+def raw_of(cls, rid):
+    conn = cls._connection
+    c = attr_db(cls)
+    return conn.queryOne('SELECT %s, typeof(%s), w FROM %s WHERE id = %s' % (c, c, cls.sqlmeta.table, conn.sqlrepr(rid)))
+
+
 def hit_same_row(cls, obj):
     """select / selectBy / get that return the row of `obj` (the cache hands back the held instance)"""
     rid = obj.id
@@ -699,6 +714,7 @@ def run_case(e, T, v, path, variant, cache):
     out = {'write': 'ok', 'reads': {}, 'rid': None}
     obj = None
     blocker = None
+    bystand = None
     wipe(cls)
     _rowid[0] += 1
     idkw = {'id': 'r%d' % _rowid[0]} if T == 'fkIntS' else {}
@@ -741,6 +757,39 @@ def run_case(e, T, v, path, variant, cache):
                 if cls.sqlmeta.lazyUpdate:
                     obj.syncUpdate()
                     view('writer-right-after-syncUpdate')
+            elif path == 'loaded':
+                # every instance involved is LOADED from the database (nothing was created by this "process"):
+                # the writer, another row of the same table and a row of another class on the same connection;
+                # the others flush / refresh (nothing of theirs is pending) around the writer's assignment
+                peer_cls = e['classes'][('string' if T == 'int' else 'int', 'lazy', cache)]
+                wipe(peer_cls)
+                b0 = bystander_value(T)
+                brow = cls(**dict({'id': 'y%d' % _rowid[0]} if T == 'fkIntS' else {}, **{a: b0}))
+                prow = peer_cls(v=None)
+                rid, bid, pid = obj.id, brow.id, prow.id
+                bystand = {'expected': b0, 'before': raw_of(cls, bid), 'peer_before': raw_of(peer_cls, pid),
+                           'cls': cls, 'bid': bid, 'peer_cls': peer_cls, 'pid': pid, 'events': []}
+                obj = brow = prow = None
+                conn.cache.clear()
+                others = [cls.get(bid), peer_cls.get(pid)]
+                obj = cls.get(rid)
+
+                def others_flush(tag):
+                    for o in others:
+                        for meth in ('syncUpdate', 'sync'):
+                            try:
+                                getattr(o, meth)()
+                            except Exception as ex:
+                                bystand['events'].append('%s: %s.%s() raises %s' % (tag, type(o).__name__, meth, type(ex).__name__))
+                bystand['others'] = others
+                setattr(obj, a, v)
+                view('writer-right-after-assign')
+                others_flush('after the assignment')
+                view('writer-after-other-instances-synced')
+                if cls.sqlmeta.lazyUpdate:
+                    obj.syncUpdate()
+                    view('writer-right-after-syncUpdate')
+                    others_flush('after the flush')
             elif path == 'lazy-failflush' and variant == 'lazy':
                 # a deferred assignment whose first flush the database refuses (UNIQUE conflict on u with the
                 # blocker row); the conflict is removed and the flush retried: the value must reach the row
@@ -780,6 +829,22 @@ def run_case(e, T, v, path, variant, cache):
     except Exception as ex:
         out['write'] = exc_kind(ex)
         out['write_exc'] = '%s: %s' % (type(ex).__name__, str(ex)[:120])
+    if bystand is not None:
+        # what the rows nobody wrote to hold now, and what their (loaded) instances show; then remove them
+        try:
+            bystand['after'] = raw_of(bystand['cls'], bystand['bid'])
+            bystand['peer_after'] = raw_of(bystand['peer_cls'], bystand['pid'])
+            if 'others' in bystand:
+                try:
+                    bystand['shown'] = ('ok', getattr(bystand['others'][0], a))
+                except Exception as ex:
+                    bystand['shown'] = (exc_kind(ex), type(ex).__name__)
+            conn.query('DELETE FROM %s WHERE id = %s' % (cls.sqlmeta.table, conn.sqlrepr(bystand['bid'])))
+            conn.cache.expire(bystand['bid'], cls)
+        except Exception as ex:
+            bystand['error'] = 'error %s' % type(ex).__name__
+        bystand.pop('others', None)
+        out['bystand'] = bystand
     if blocker is not None:
         # the blocker row is scaffolding: remove it (raw SQL) before the snapshot of the table and the queries
         try:
@@ -908,6 +973,26 @@ def oracle(ctx, e, T, v, path, variant, cache, out, cls):
     col = COLNAME[T]
     dom = in_domain(T, v)
     vc = vclass(T, v)
+    by = out.get('bystand')
+    if by is not None:
+        # rows nobody wrote to must be untouched, whatever happened to the written one
+        if by.get('error') or by.get('events'):
+            ctx.oracle_fail('C01:write disturbs other loaded instances', '%s: writing %r to one loaded instance: %s'
+                            % (col, v, by.get('error') or '; '.join(by['events'][:3])), desc)
+        elif by.get('after') != by.get('before') and not (by['after'] and by['before'] and same(by['after'][0], by['before'][0])
+                                                         and by['after'][1:] == by['before'][1:]):
+            ctx.oracle_fail('C01:write leaks into another row of the same table',
+                            '%s: row B held %r; after %r was assigned to (loaded) row A and the instances synced, row B holds %r'
+                            % (col, by['before'], v, by['after']), desc)
+        elif by.get('peer_after') != by.get('peer_before'):
+            ctx.oracle_fail('C01:write leaks into a row of another class',
+                            '%s: after %r was assigned to a loaded instance, the row of another class changed from %r to %r'
+                            % (col, v, by['peer_before'], by['peer_after']), desc)
+        elif 'shown' in by and (by['shown'][0] != 'ok' or not same(by['shown'][1], by['expected'])
+                                or type(by['shown'][1]) is not type(by['expected'])):
+            ctx.oracle_fail('C01:write changes what another loaded instance shows',
+                            '%s: instance of row B (holding %r) shows %r after %r was assigned to row A'
+                            % (col, by['expected'], by['shown'][1], v), desc)
     if out['write'] != 'ok':
         if dom:
             ctx.oracle_fail('C01:%s:domain value %s refused' % (col, vc),
@@ -1206,6 +1291,8 @@ def run(ctx):
                 variant = 'lazy'
             elif path == 'expire-sync-assign':
                 pass          # all three variants in rotation (the lazy one flushes with syncUpdate)
+            elif path == 'loaded':
+                variant = 'lazy' if idx % 2 == 0 else VARIANTS[(idx + pi) % 3]
             elif path != 'lazy' and variant == 'lazy':
                 # eager paths on a lazy class only become visible after sync: covered by the 'lazy' path; use eager here
                 variant = 'eager'
